@@ -1040,6 +1040,7 @@ func pyRangeFunc(s *scope, args []pyObject) pyObject {
 		stop = start
 		start = 0
 	}
+	s.Assert(step != 0, "range() step argument must not be zero")
 	return &pyRange{
 		Start: start,
 		Stop:  stop,
